@@ -9,7 +9,7 @@ from gen import wsgen as G
 
 PROP = "C31"
 NSHARDS = 16
-NSTREAMS = dict(quick=1500, thorough=80000)
+NSTREAMS = dict(quick=1500, thorough=50000)
 RULE = ("generated RFC 6455 client frame streams (masked/unmasked, 7/16/64-bit and non-minimal lengths, fragmented messages, "
         "interleaved control frames, close, reserved opcodes, lengths above the 10 MiB limit, malformed fragmentation, bytes after close) "
         "each run under one-shot / byte-at-a-time / frame-boundary / random (thorough: + header-split, second random) segmentation; "
@@ -17,7 +17,7 @@ RULE = ("generated RFC 6455 client frame streams (masked/unmasked, 7/16/64-bit a
         "distinct = hash of (stream bytes, segment lengths, callback options)")
 REG = dict(
     category="exploration",
-    text="Runtime differential + metamorphic monitor: ~1 500 (quick) / ~80 000 (thorough) generated RFC 6455 client frame streams, each sent "
+    text="Runtime differential + metamorphic monitor: ~1 500 (quick) / ~50 000 (thorough) generated RFC 6455 client frame streams, each sent "
          "over loopback to a real evhttp/evws server session under 4 (6) segmentations incl. byte-at-a-time; every message callback, the close "
          "callback, the bytes written back and the socket close are compared with an independent RFC 6455 reference decoder and across "
          "segmentations, under ASan+UBSan+LSan. Sampling of an infinite input space: held-on-observed.",
@@ -340,11 +340,11 @@ def execute(res, tier, seed, only=None):
     wargs = [(seed, tier, sh, total, os.path.join(wd, "ws-%s-%d-%d.script" % (tier, seed, sh)), only, None) for sh in shards]
     with _pool(len(wargs)) as p:
         p.map(write_script, wargs)
-    jobs = [dict(args=["--arg", a[4]], tag="c31-%s-%d-%d" % (tier, seed, a[2]), replay=dict(seed=seed, tier=tier, shard=a[2])) for a in wargs]
+    jobs = [dict(args=["--arg", a[4], "--n1", 900 if tier == "thorough" else 180], tag="c31-%s-%d-%d" % (tier, seed, a[2]), replay=dict(seed=seed, tier=tier, shard=a[2])) for a in wargs]
     # The harness restarts itself behind a case that died with a sanitizer report.  UBSan stack
     # traces cost ~3 s of symbolisation per report and are not part of the key; --replay runs
     # with the default environment and prints them.
-    outs = vlib.run_jobs(res, "asan", "h_ws", jobs, timeout=2400 if tier == "thorough" else 600,
+    outs = vlib.run_jobs(res, "asan", "h_ws", jobs, timeout=3600 if tier == "thorough" else 600,
                          env_extra=None if only is not None else {"UBSAN_OPTIONS": "print_stacktrace=0:halt_on_error=1"})
     jargs = [(seed, tier, a[2], total, [o["out"]], only) for a, o in zip(wargs, outs)]
     with _pool(len(jargs)) as p:
